@@ -69,6 +69,13 @@ class C02(S4UCheck):
             plan = importlib.import_module(src).CHECK.gen(seed, tier)
         plan['seed'] = seed
         plan['source'] = src
+        if src == 'c11':
+            # a restarted incarnation registers itself in the harness' name table from its own context, while controllers
+            # look their victims up by name: memory shared between actors outside of the simulated synchronisations, which
+            # the property excludes. Host reboots with auto-restart stay in C11/C01 (sequential).
+            for a in plan['actors']:
+                a.pop('autorestart', None)
+                a['ops'] = [op for op in a['ops'] if op[0] not in ('host_off', 'host_on')]
         for k in ('mode', 'walk', 'walkseed', 'maxsteps', 'layout', 'aslr'):
             plan['opts'].pop(k, None)
         plan['cfg'] = [c for c in plan.get('cfg', []) if not c.startswith('contexts/')]
